@@ -166,6 +166,8 @@ def compared_attrs(fn):
                 elif e.kind == "BinaryOperator" and e.opcode == "<" and e.children[1].intval() == 0:
                     lab = "T"
             miss_ok = lab is not None and _helper_rejects_missing(helper) and rejects(missing_node, lab)
+            if not miss_ok and (lab is None or missing_node is None or not _helper_rejects_missing(helper)):
+                miss_ok = None      # the open sits in a helper whose way of reporting a missing attribute was not recognised
         out[name] = (re.sub(r"\s", "", rargs[1].nsrc), canon, o, miss_ok, mism_ok)
     return out
 
@@ -272,6 +274,8 @@ def r1_attribute_tables(repo=None):
             probs.append("compared against %s but written from %s" % (canon, wsrc))
         if mtype != wtype:
             probs.append("read as %s but written as %s" % (mtype, wtype))
+        if miss_ok is None:
+            raise AnalysisError("%s: how the helper that opens `%s` reports a missing attribute to the restart comparison was not recognised" % (H, name))
         if not miss_ok:
             probs.append("a missing attribute does not return an error")
         if not mism_ok:
@@ -1001,8 +1005,47 @@ def r10_later_rows_start_after_the_first_sample(repo=None):
     return r
 
 
+def r11_new_index_starts_at_offset_zero(repo=None):
+    """'data offsets starting at offset 0': the rows a call hands to digital_rf_write_rf_data_index are relative to the first
+    sample this call stores; they are re-based by the number of samples already in the file (dataset_index) when they are
+    appended to an *existing* index.  For the index of a file that is being created the rows are stored as they are - the file's
+    first row is (file start, 0) also when dataset_index is not 0 (a continuous, unchunked file whose first write lands in the
+    middle of its window).  On the CFG: no path holds both the creation of the index data set and the re-basing store."""
+    r = Rule("C06.R11", "the rows of a newly created block index are stored without re-basing (the first data offset of a file is 0)")
+    tu = cfront.lib(repo)
+    F = "digital_rf_write_rf_data_index"
+    fn = tu.fn(F)
+    g = _cfg.build_c(fn)
+    rebase = []
+    for path, node, rhs, kind in clib.stores(fn):
+        # `arr[2*i + 1] += obj->dataset_index` or, walking a pointer over the rows, `*p += obj->dataset_index`
+        if path and ("[" in path or path.startswith("*")) and not path.startswith(clib.OBJ) and "->" not in path and kind in ("+=", "=") \
+                and rhs is not None and any(x.kind == "MemberExpr" and x.name == "dataset_index" for x in rhs.walk()):
+            nd = clib.node_of(g, node)
+            if nd is not None:
+                rebase.append((nd, node))
+    creates = [n for n in g.nodes if n.ast is not None and n.kind in ("stmt", "cond") and n.ast.calls(("H5Dcreate2",))]
+    if not rebase or not creates:
+        raise AnalysisError("%s: the re-basing store (%d) / the creation of the index data set (%d) was not found" % (F, len(rebase), len(creates)))
+    bad = []
+    for nd, node in rebase:
+        for c in creates:
+            if c.id in g.reach([nd.id]) or nd.id in g.reach([c.id]):      # (the store sits in a loop: its exit is a back edge away)
+                bad.append((node, c))
+    if bad:
+        node, c = bad[0]
+        r.violation(LIB, F, node.nsrc[:70], "the data offsets of the rows are re-based by dataset_index on a path that also creates the index "
+                    "data set (line %d): the first row of a new file is stored as (file start, dataset_index) instead of (file start, 0) "
+                    "when the first write lands inside the file's window - the index no longer starts at offset 0 and every read of the "
+                    "file is shifted" % c.line, line=node.line)
+    else:
+        r.ok("%s:%s %s" % (LIB, rebase[0][1].line, F), "re-basing by dataset_index happens only when rows are appended to an existing index")
+    r.guard(1)
+    return r
+
+
 def rules(repo=None):
-    return [lambda: r10_later_rows_start_after_the_first_sample(repo), lambda: r8_session_timestamp_exact(repo), lambda: r1_attribute_tables(repo), lambda: r2_write_once(repo), lambda: r3_metadata_in_every_file(repo),
+    return [lambda: r11_new_index_starts_at_offset_zero(repo), lambda: r10_later_rows_start_after_the_first_sample(repo), lambda: r8_session_timestamp_exact(repo), lambda: r1_attribute_tables(repo), lambda: r2_write_once(repo), lambda: r3_metadata_in_every_file(repo),
             lambda: r4_regeneration_source(repo), lambda: r5_index_passes_agree(repo), lambda: r6_capacity_from_window(repo),
             lambda: r7_rows_start_inside_the_file(repo), lambda: r9_only_own_files_published(repo)]
 
@@ -1023,6 +1066,8 @@ def r9_only_own_files_published(repo=None):
 
 
 EXPLANATION = (
+    'R11: in digital_rf_write_rf_data_index no path holds both the creation of the index data set and the store that re-bases the data '
+    'offsets by dataset_index. '
     "R1: the attribute tables are extracted from the repeated H5Acreate2/H5Awrite, H5Aopen/H5Aread/compare and "
     "fo.attrs[k]=md[k] idioms and compared row by row: every properties-file attribute is repeated per file with the same "
     "HDF5 type and source expression, the per-file-only set is exactly {sequence_num, init_utc_timestamp, computer_time, "
